@@ -232,7 +232,7 @@ def main():
         }],
         "checks": checks,
         "not_applicable": na,
-        "notes": "All claims are at level 'other': each check decides named structural clauses (necessary conditions) of its property from the source, on all paths, and says which part of the behaviour it does not decide. See DESIGN.md.",
+        "notes": "All claims are at level 'other': each check decides named structural clauses (necessary conditions) of its property from the source, on all paths, and says which part of the behaviour it does not decide. Before analysis the working tree is normalised: calls of functions whose names are not in spec/functions.json (new helpers) are inlined with the vendored golang.org/x/tools source inliner (checker/xt, BSD licence; DESIGN §32). Silence means 'equal to the reviewed structure up to the normal forms on file'; measured limits (medium-sized refactorings, full rewrites, new codecs) are in DESIGN §29 and §32. See DESIGN.md.",
     }
     out = os.path.join(ROOT, "MANIFEST.json")
     json.dump(m, open(out, "w"), indent=1)
